@@ -84,6 +84,7 @@ def run_check(prop, tier, seed, replay=None):
 
     import warnings
     warnings.simplefilter("ignore")
+    warnings.showwarning = lambda *a, **k: None   # pysaml2 modules reset the filters at import time
     ctx.trusted = list(COMMON_TRUSTED) + list(getattr(mod, "TRUSTED", []))
     ctx.assumptions = list(getattr(mod, "ASSUMPTIONS", []))
     ctx.rule = getattr(mod, "RULE", "")
